@@ -55,13 +55,13 @@ Lemma deser_type_f_unfold fuel depth :
       else if id =? 34 then bind (deser_type_f custom f (depth + 1)) (fun e => ret (TSet false e))
       else if id =? 48 then
         bind read_string (fun ks => bind read_string (fun name => bind read_short (fun n =>
-        bind (tick_alloc (u16 n * SZ_UDT_FIELD)) (fun _ =>
+        bind (tick_alloc_capped n 4 SZ_UDT_FIELD) (fun _ =>
         bind (repeatS (bind read_string (fun fname =>
                        bind (deser_type_f custom f (depth + 1)) (fun ft => ret (fname, ft)))) n)
              (fun fs => ret (TUdt false ks name fs))))))
       else if id =? 49 then
         bind read_short (fun n =>
-        bind (tick_alloc (u16 n * SZ_COLTYPE)) (fun _ =>
+        bind (tick_alloc_capped n 2 SZ_COLTYPE) (fun _ =>
         bind (repeatS (deser_type_f custom f (depth + 1)) n) (fun es => ret (TTuple es))))
       else match native_of_id id with
            | Some nt => ret (TNative nt)
@@ -178,7 +178,7 @@ Proof.
     rewrite run_bind, run_read_string_enc by (repeat split; assumption). cbv beta iota.
     rewrite run_bind, run_read_string_enc by (repeat split; assumption). cbv beta iota.
     rewrite run_bind, run_read_short_enc by assumption. cbv beta iota.
-    rewrite run_bind, run_tick_alloc. cbv beta iota. rewrite run_bind.
+    rewrite run_bind, run_tick_alloc_capped. cbv beta iota. rewrite run_bind.
     rewrite (run_repeatS_enc _ (fun f => enc_string (fst f) ++ enc_type (snd f))); [reflexivity|].
     rewrite Forall_forall in *. intros [fname ft] Hin r'. cbn [fst snd].
     match goal with H : forallb _ fs = true |- _ => rewrite forallb_forall in H; specialize (H _ Hin) end.
@@ -193,7 +193,7 @@ Proof.
     apply andb_true_iff in W as [Wl We]. apply N.ltb_lt in Wl.
     rewrite <- !app_assoc, run_bind, run_read_short_enc by lia. cbv beta iota. lit_eqb. cbv iota.
     rewrite run_bind, run_read_short_enc by assumption. cbv beta iota.
-    rewrite run_bind, run_tick_alloc. cbv beta iota. rewrite run_bind.
+    rewrite run_bind, run_tick_alloc_capped. cbv beta iota. rewrite run_bind.
     rewrite (run_repeatS_enc _ enc_type); [reflexivity|].
     rewrite Forall_forall in *. intros e Hin r'. rewrite forallb_forall in We.
     pose proof (fold_max_ge type_depth es _ Hin) as M.
